@@ -174,6 +174,12 @@ func fetchPkgEnums(pa *packages.Package) enumsMap {
 		}
 		// per the spec, only basic types may be constant
 
+		if named.Obj().Pkg() != pa.Types {
+			// a constant typed with a type of another package: an enum is
+			// described by the constants of the package declaring its type
+			continue
+		}
+
 		comment := fetchConstComment(pa, decl)
 		if strings.Contains(comment, IgnoreDeclComment) { // this value does not implies an enum
 			continue
